@@ -174,9 +174,12 @@ func (wf *Workflow) SetSink(sink *Sink) {
 // currently running in the workflow
 func (wf *Workflow) IncConcurrentTasks(slots int) {
 	// We must lock so that multiple processes don't end up with partially "filled slots"
+	verifPoint("slots.before_lock")
 	wf.concurrentTasksMx.Lock()
+	verifPoint("slots.locked")
 	for i := 0; i < slots; i++ {
 		wf.concurrentTasks <- struct{}{}
+		verifPoint("slots.deposited")
 		Debug.Println("Increased concurrent tasks")
 	}
 	wf.concurrentTasksMx.Unlock()
@@ -186,6 +189,7 @@ func (wf *Workflow) IncConcurrentTasks(slots int) {
 // currently running in the workflow
 func (wf *Workflow) DecConcurrentTasks(slots int) {
 	for i := 0; i < slots; i++ {
+		verifPoint("slots.removing")
 		<-wf.concurrentTasks
 		Debug.Println("Decreased concurrent tasks")
 	}
@@ -335,8 +339,10 @@ func (wf *Workflow) runProcs(procs map[string]WorkflowProcess) {
 
 	Debug.Printf("%s: Starting driver process (%s) in main go-routine", wf.name, wf.driver.Name())
 	wf.Auditf("Starting workflow (Writing log to %s)", wf.logFile)
+	verifPoint("wf.before_driver")
 	wf.driver.Run()
 	wg.Wait()
+	verifPoint("wf.after_driver")
 	wf.Auditf("Finished workflow (Log written to %s)", wf.logFile)
 }
 
